@@ -238,8 +238,11 @@ def r3b_payload_paths(report, repo):
   rule = 'C13-R3'
   f = repo.func(AM, CLS + '.write_message')
 
+  tnames = lib.copy_class(f, lib.param_names(f.node)[2])
+
   def cl(expr, steps):
-    if call_name(expr) == 'timeout.has_expired':
+    cn = call_name(expr) or ''
+    if cn.endswith('.has_expired') and cn.rsplit('.', 1)[0] in tnames:
       return 'expired'
     return None
 
